@@ -262,7 +262,8 @@ pub enum Val {
     /// a caller-defined `WriteToHeader` implementation that appends these bytes; `mode` says how:
     /// 0 = one write, honest count; 1 = one write, reports 0; 2 = one write, reports len + 7;
     /// 3 = byte-at-a-time writes, reports the number of write calls made; 4 = two halves, reports
-    /// only the second half. What the builder emits must not depend on the reported number.
+    /// only the second half; 5 = the bytes are held in a fixed-size array and written with
+    /// method-call syntax on the array. What the builder emits must not depend on the reported number.
     Custom(Blob, u8),
 }
 
@@ -311,6 +312,8 @@ impl Val {
             Val::TlvTupleType(t, b) => tlv(TYPE_CODES[*t].1, &b.bytes())?,
             Val::Section(b) | Val::SectionAdv(b, _) => b.bytes(),
             Val::Type(t) => vec![TYPE_CODES[*t].1],
+            // mode 5 hands its bytes to the byte-slice encoder: the 65535-byte limit applies
+            Val::Custom(b, 5) if b.len > MAX_PAYLOAD => return Err(()),
             Val::Custom(b, _) => b.bytes(),
         })
     }
@@ -700,7 +703,11 @@ pub fn rand_val(rng: &mut Rng, big_ok: bool) -> Val {
     if rng.chance(1, 24) {
         let mut b = rand_blob(rng, false);
         b.len = b.len.min(4096);
-        return Val::Custom(b, rng.below(5) as u8);
+        let mode = rng.below(6) as u8;
+        if mode == 5 {
+            b.len = *rng.pick(&[3usize, 300, 65535, 65536, 65536]);
+        }
+        return Val::Custom(b, mode);
     }
     match rng.below(14) {
         0..=3 => rand_int(rng),
@@ -881,6 +888,19 @@ pub fn boundary_history(rng: &mut Rng) -> History {
 /// Long chain of small writes (ordering / duplication).
 pub fn chain_history(rng: &mut Rng) -> History {
     let ctor = rand_ctor(rng);
+    if rng.chance(1, 12) && !crate::engine::small() {
+        // one batch of very many very small items (a TLV list handed over piecewise: type byte,
+        // length, value): 20 000 .. 33 000 items, well within the size limit
+        let n = rng.range(20_000, 33_000);
+        let items: Vec<Val> = (0..n)
+            .map(|i| match i % 3 {
+                0 => Val::U8(i as u8),
+                1 => Val::U8(0),
+                _ => if i % 9 == 2 { Val::Bytes(Blob::new(2, 0)) } else { Val::U8((i >> 4) as u8) },
+            })
+            .collect();
+        return History { ctor, ops: vec![Op::Batch(items)] };
+    }
     let n = rng.range(20, 200);
     let mut ops = Vec::new();
     for i in 0..n {
